@@ -34,6 +34,8 @@ FLAGNAMES = list(FLAGS)
 def check(toks, resp, mode, build):
     if toks[0] == "fmtfail":
         return C.check_fmtfail(toks, resp, mode)
+    if toks[0] == "fmtpanic":
+        return C.check_fmtpanic(toks, resp, mode)
     flags = toks[1]
     w = None if toks[2] == "-" else int(toks[2])
     p = None if toks[3] == "-" else int(toks[3])
@@ -143,7 +145,7 @@ def gen(rng, tier, shard, batch):
             if rng.random() < 0.02:
                 # a write into a sink that fails part-way; the following requests must be unaffected
                 c2, s2 = G.dec(rng)
-                reqs.append("fmtfail %d %s %s" % (rng.randrange(0, 45), rng.choice(("-", str(rng.randrange(0, 30)))), G.fD(c2, s2)))
+                reqs.append("%s %d %s %s" % (rng.choice(("fmtfail", "fmtpanic")), rng.randrange(0, 45), rng.choice(("-", str(rng.randrange(0, 30)))), G.fD(c2, s2)))
     return reqs
 
 
